@@ -377,3 +377,167 @@ def ob_max_generation(ctx):
         res.status, res.detail = 'inconclusive', 'vacuous'
     res.time = time.time() - t0
     return res
+
+
+# ---------------------------------------------------------------------------------------------------------------------
+# C15: the reducer of the parallel fold/reduce, second (bit-precise IEEE) encoding through Engine M
+
+def ob_reducer(ctx, la, lb):
+    """C15: InsertionResult::choose_best_result (real MIR incl. InsertionCost::cmp / partial_cmp and everything they call)
+    returns, for two successes with arbitrary cost vectors (every f64 bit pattern), one of the operands whose cost is the
+    minimum under the reference lexicographic total order (missing components = +0); a failure never beats a success;
+    the identity `make_failure()` is neutral; for three successes both reduction-tree shapes return the same minimum."""
+    import symex as _sx
+    name = f'reducer[lens={la}x{lb}]'
+    res = Result(name)
+    res.bounds = f'cost vectors of length {la} and {lb} (and {lb} again for the third leaf), components: every f64 bit pattern'
+    t0 = time.time()
+    fns = ctx.prog.find_method('InsertionResult', 'choose_best_result')
+    mf = ctx.prog.find_method('InsertionResult', 'make_failure')
+    if len(fns) != 1 or len(mf) != 1:
+        raise Inconclusive('InsertionResult::choose_best_result/make_failure not found')
+    choose = fns[0]
+
+    class Env(IeeeEnv):
+        pass
+
+    def cost(env, tag, n):
+        vals = [FP(z3.FP(f'cost_{tag}_{i}', F64)) for i in range(n)]
+        return env.struct('insertions::InsertionCost', data=VecV(vals)), vals
+
+    def success(env, tag, n):
+        c, vals = cost(env, tag, n)
+        s = env.struct('insertions::InsertionSuccess', cost=c, job=Opaque('job_' + tag), activities=VecV([]), actor=Opaque('actor_' + tag))
+        return EnumV('insertions::InsertionResult', 0, {0: [s]}), vals
+
+    def key(v):
+        return _sx.fp_total_key(v.t)
+
+    def ref_le(xs, ys):
+        """xs <= ys in the lexicographic total order, missing = +0.0"""
+        n = max(len(xs), len(ys))
+        zero = FP(0.0)
+        out = z3.BoolVal(True)
+        for i in reversed(range(n)):
+            a = key(xs[i] if i < len(xs) else zero)
+            b = key(ys[i] if i < len(ys) else zero)
+            out = z3.If(a < b, True, z3.If(a > b, False, out))
+        return out
+
+    def explore(body_fn):
+        env = Env(ctx.prog, ctx.layout)
+        eng = symex.Engine(ctx.prog, ctx.layout, env, solver_timeout_ms=30000)
+
+        def body(st):
+            env.assumptions.clear()
+            return body_fn(env, eng, st)
+        paths = eng.explore(body, max_paths=6000)
+        res.paths += len(paths)
+        res.functions |= eng.functions_used
+        return env, paths
+
+    def result_cost(out):
+        s = out.payload[0][0]
+        return s, s.fields[0].fields[0].items   # InsertionSuccess.cost.data
+
+    # ---- pair lemma, both successes
+    holder = {}
+
+    def pair(env, eng, st):
+        l, lv = success(env, 'l', la)
+        r, rv = success(env, 'r', lb)
+        holder['lv'], holder['rv'] = lv, rv
+        return eng.exec_fn(st, choose, [l, r])
+    env, paths = explore(pair)
+    for st, out in paths:
+        if out is None:
+            if not no_panic(ctx, res, env, st, what=name):
+                break
+            continue
+        lv, rv = holder['lv'], holder['rv']
+        res.claims += 1
+        if out.variant() != 0:
+            res.status, res.detail = 'violated', 'two successes reduced to a failure'
+            break
+        s, cv = result_cost(out)
+        who = s.fields[ctx.layout.fields('insertions::InsertionSuccess').index('actor')].name
+        mine, other = (lv, rv) if who == 'actor_l' else (rv, lv)
+        same = len(cv) == len(mine) and all(x.t.eq(y.t) for x, y in zip(cv, mine))
+        if who not in ('actor_l', 'actor_r') or not same:
+            res.status, res.detail = 'violated', 'the winner is not one of the operands (cost and actor do not belong together)'
+            break
+        if not decide_claim(ctx, res, env, st, ref_le(mine, other), what=f'{name}: winner has the minimal cost vector'):
+            m = res.model
+            if m is not None:
+                res.case = {'kind': 'reducer', 'left': [str(m.eval(z3.fpToIEEEBV(v.t), model_completion=True).as_long()) for v in lv],
+                            'right': [str(m.eval(z3.fpToIEEEBV(v.t), model_completion=True).as_long()) for v in rv]}
+            break
+        res.witnesses += int(witness(ctx, res, env, st, z3.BoolVal(who == 'actor_r')))
+    # ---- failures and identity
+    if res.status == 'holds':
+        def with_failure(env, eng, st):
+            l, lv = success(env, 'l', la)
+            ident = eng.exec_fn(st, mf[0], [])
+            a = eng.exec_fn(st, choose, [l, ident])
+            ident2 = eng.exec_fn(st, mf[0], [])
+            r, rv = success(env, 'r', lb)
+            b = eng.exec_fn(st, choose, [ident2, r])
+            f1 = EnumV('insertions::InsertionResult', 1, {1: [env.struct('insertions::InsertionFailure', constraint=Agg('struct', [IV(z3.Int('code1'), 'i32')], 'goal::ViolationCode'),
+                                                                     stopped=BV(z3.Bool('stopped1')), job=mk_option(True, Opaque('job_f1'), ty='Option<Job>'))]})
+            f2 = EnumV('insertions::InsertionResult', 1, {1: [env.struct('insertions::InsertionFailure', constraint=Agg('struct', [IV(z3.Int('code2'), 'i32')], 'goal::ViolationCode'),
+                                                                     stopped=BV(z3.Bool('stopped2')), job=mk_option(True, Opaque('job_f2'), ty='Option<Job>'))]})
+            c = eng.exec_fn(st, choose, [f1, f2])
+            return a, b, c
+        env, paths = explore(with_failure)
+        for st, out in paths:
+            if out is None:
+                if not no_panic(ctx, res, env, st, what=name):
+                    break
+                continue
+            a, b, c = out
+            res.claims += 1
+            ok = a.variant() == 0 and b.variant() == 0 and c.variant() == 1
+            if ok:
+                ok = result_cost(a)[0].fields[ctx.layout.fields('insertions::InsertionSuccess').index('actor')].name == 'actor_l' and \
+                    result_cost(b)[0].fields[ctx.layout.fields('insertions::InsertionSuccess').index('actor')].name == 'actor_r'
+            if not ok:
+                res.status, res.detail = 'violated', 'a failure (or the identity element) displaced a success, or two failures became a success'
+                break
+            res.witnesses += int(witness(ctx, res, env, st, z3.BoolVal(True)))
+    # ---- three leaves, both tree shapes
+    if res.status == 'holds':
+        def tree(shape):
+            def f(env, eng, st):
+                a, av = success(env, 'a', la)
+                b, bv = success(env, 'b', lb)
+                c, cv = success(env, 'c', lb)
+                holder['leaves'] = {'actor_a': av, 'actor_b': bv, 'actor_c': cv}
+                if shape == 'left':
+                    return eng.exec_fn(st, choose, [eng.exec_fn(st, choose, [a, b]), c])
+                return eng.exec_fn(st, choose, [a, eng.exec_fn(st, choose, [b, c])])
+            return f
+        for shape in ('left', 'right'):
+            env, paths = explore(tree(shape))
+            for st, out in paths:
+                if out is None:
+                    if not no_panic(ctx, res, env, st, what=name):
+                        break
+                    continue
+                s, cv = result_cost(out)
+                who = s.fields[ctx.layout.fields('insertions::InsertionSuccess').index('actor')].name
+                leaves = holder['leaves']
+                mine = leaves[who]
+                claim = z3.And(*[ref_le(mine, v) for k, v in leaves.items() if k != who])
+                if not decide_claim(ctx, res, env, st, claim, what=f'{name}: {shape}-deep tree of three leaves returns the minimum'):
+                    m = res.model
+                    if m is not None:
+                        res.case = {'kind': 'reducer', 'shape': shape,
+                                    'leaves': [[str(m.eval(z3.fpToIEEEBV(v.t), model_completion=True).as_long()) for v in leaves[k]] for k in ('actor_a', 'actor_b', 'actor_c')]}
+                    break
+                res.witnesses += int(witness(ctx, res, env, st, z3.BoolVal(who == 'actor_c')))
+            if res.status != 'holds':
+                break
+    if res.status == 'holds' and res.witnesses == 0:
+        res.status, res.detail = 'inconclusive', 'vacuous'
+    res.time = time.time() - t0
+    return res
